@@ -97,11 +97,11 @@ fn seq_order(kind: u8, fold: bool) {
     crate::variable::verif_valgate::stub_element_type(true); // the stored element type is not the subject here
     let (a0, d1, d2): (i64, i64, i64) = (kani::any(), kani::any(), kani::any());
     let acc = new_cell(Type::Int, Variable::Int(a0));
-    let elems: Arc<[InstructionWithStr]> = Arc::from(vec![iws(eff(&acc, d1)), iws(eff(&acc, d2))]);
+    let elems: Arc<[InstructionWithStr]> = Arc::from(crate::vv![iws(eff(&acc, d1)), iws(eff(&acc, d2))]);
     let mut tree: Instruction = match kind {
         0 => crate::instruction::array::Array { instructions: elems, element_type: Type::Int }.into(),
         1 => crate::instruction::tuple::Tuple { elements: elems }.into(),
-        _ => Struct { idents: Arc::from(vec![Arc::<str>::from("x"), Arc::<str>::from("y")]), values: elems }.into(),
+        _ => Struct { idents: Arc::from(crate::vv![Arc::<str>::from("x"), Arc::<str>::from("y")]), values: elems }.into(),
     };
     if fold { tree = folded(&tree); }
     let r = run(&tree);
@@ -165,7 +165,7 @@ fn slice_order(fold: bool) {
     let acc = new_cell(Type::Int, Variable::Int(0));
     // the sequence operand has an effect too: it sets acc to 10 (`acc = 10` yields 10 - not a sequence),
     // so the sequence is a constant and the three bounds carry the order: start = 1, stop = 1+2, step = 1+2-2
-    let seq = Variable::from(vec![Variable::Int(5), Variable::Int(6), Variable::Int(7), Variable::Int(8)]);
+    let seq = Variable::from(crate::vv![Variable::Int(5), Variable::Int(6), Variable::Int(7), Variable::Int(8)]);
     let mut tree: Instruction = Slicing {
         lhs: iws(Instruction::Variable(seq)),
         start: Some(iws(eff(&acc, 1))),
